@@ -37,6 +37,9 @@ ASSUMPTIONS = [
     "the independent solve (own cvxpy formulation, Clarabel, polished by the reference projection) is trusted only through its KKT certificate; "
     "its certified gap is added to the tolerance of every all-competitors verdict",
     "runs that end at max_iteration_optimization without meeting the criterion are lock-step checked but not judged for optimality (counted)",
+    "where the reduced variables are not a (scaled) isometry of the stacked frame (POVM with >= 3 outcomes, flag on) the step direction is only "
+    "required to lead to a feasible point; for a scaled isometry (POVM with 2 outcomes, flag on) the gradient may be taken in either metric; "
+    "optimality is judged end-to-end in all cases",
     "measurement-process tomography, the momentum and FISTA algorithms and non-identity weights are not covered (not in the property's quantifier)",
 ]
 BOUNDS = {"quick": "Qst Q1 (tables N<=3), Povmt Q1 m=2 (N<=2) and m=3 (N=1), Qpt Q1 (N=1, at most one schedule off), Qst Q3 (N=1); exact data of every "
@@ -73,7 +76,7 @@ def tol_excess(mode, eps, gnorm):
 
 def tol_kkt(mode, eps, gnorm):
     """allowed residual of the KKT certificate at the estimate (an upper bound of the sub-optimality)"""
-    floor = 3e4 * FLOOR * (1 + gnorm)
+    floor = 6e4 * FLOOR * (1 + gnorm)
     if mode in ("single", "absloss"):
         return 50 * math.sqrt(eps) + floor
     return 100 * eps + floor
